@@ -7,7 +7,7 @@
    enable-disable events.  Numbers are the reals (instance Rops); [fixed] / [efix] select the code
    before / after the two repairs of branch fix-C08 (true = repaired, the tree the check is tied to). *)
 From Coq Require Import ZArith List Bool Reals.
-From CV Require Import Base.Num Base.RNum C08.ModuleModel C08.ModuleProofs.
+From CV Require Import Base.Num Base.RNum C08.ModuleModel C08.ModuleProofs C17.ExtLagModel C17.ExtLagProofs C08.ExtCompose.
 Import ListNotations.
 Local Open Scope R_scope.
 
@@ -179,3 +179,84 @@ Theorem C08_no_error_without_script_events :
     no_script evs -> Forall (fun o : @out T BS => o_err o = false) (run_cfg O fixed efix it0 tsfs cfgs evs).
 Proof. exact @run_cfg_noerr. Qed.
 Print Assumptions C08_no_error_without_script_events.
+
+(* ---- round 2 ------------------------------------------------------------------------------------------ *)
+
+(* Variable-level timeStepFactor, positive statement (after the repair of the first step): in every run, a
+   variable with factor n > 1 is active (evaluated) at a calc() exactly when the step is a multiple of n OR an
+   active bias uses it.  The second disjunct is the recorded finding (C08_variable_factor_refuted); no force is
+   ever scaled by a variable's factor (C08_pipeline_closed_form has only the biases' factors). *)
+Theorem C08_variable_schedule :
+  forall (BS : Type) (efix : bool) (it0 : Z) (tsfs : list Z) (cfgs : list (@bias_cfg R BS)) (evs : list (@event R)),
+    Forall (fun o : @out R BS =>
+              forall i v, nth_error (o_vars o) i = Some v -> (1 <? v_tsf v)%Z = true ->
+                v_active v = on_schedule (o_it o) (v_tsf v) || (0 <? refs (o_biases o) i)%Z)
+           (run_cfg Rops true efix it0 tsfs cfgs evs).
+Proof. exact (fun BS efix it0 tsfs cfgs evs => @variable_schedule BS true efix it0 tsfs cfgs evs eq_refl). Qed.
+Print Assumptions C08_variable_schedule.
+
+(* n-ary superposition: at every calc() the force on every coordinate and the energy of a run with any list of
+   biases are the sums over the biases of the force / energy of the run with that bias alone. *)
+Theorem C08_superposition_all :
+  forall (BS : Type) (fixed efix : bool) (it0 : Z) (tsfs : list Z) (cfgs : list (@bias_cfg R BS)) (evs : list (@event R)) (j : nat),
+    (forall k, nth_force (run_cfg Rops fixed efix it0 tsfs cfgs evs) j k
+               = rsum (map (fun c => nth_force (run_cfg Rops fixed efix it0 tsfs [c] evs) j k) cfgs)) /\
+    nth_energy (run_cfg Rops fixed efix it0 tsfs cfgs evs) j
+    = rsum (map (fun c => nth_energy (run_cfg Rops fixed efix it0 tsfs [c] evs) j) cfgs).
+Proof. exact @superposition_all. Qed.
+Print Assumptions C08_superposition_all.
+
+(* Impulse of several biases with different factors sharing variables: over ANY window of calls the impulse
+   delivered on a coordinate is the sum of the impulses of the members run alone (each of which is n_b * F_b(m n_b)
+   per complete window of its own factor, C08_impulse; window_force_firstn relates the two notations). *)
+Theorem C08_impulse_shared :
+  forall (BS : Type) (fixed efix : bool) (it0 : Z) (tsfs : list Z) (cfgs : list (@bias_cfg R BS)) (evs : list (@event R))
+         (j N k : nat),
+    window_force (run_cfg Rops fixed efix it0 tsfs cfgs evs) j N k
+    = rsum (map (fun c => window_force (run_cfg Rops fixed efix it0 tsfs [c] evs) j N k) cfgs).
+Proof. exact @impulse_shared. Qed.
+Print Assumptions C08_impulse_shared.
+
+(* Routing of the bias forces inside a variable: at every calc() fb is the sum of factor_b * F_b,i over the
+   active applying biases WITHOUT bypassExtendedLagrangian and fb_actual the same sum over those WITH it (the
+   harmonicWalls default) - both branches carry the bias's own time-step factor. *)
+Theorem C08_fb_routing :
+  forall (BS : Type) (fixed efix : bool) (it0 : Z) (tsfs : list Z) (cfgs : list (@bias_cfg R BS)) (evs : list (@ModuleModel.event R)),
+    Forall (fun o : @out R BS =>
+              forall i v, nth_error (o_vars o) i = Some v ->
+                v_fb v = VFn (o_biases o) i /\ v_fba v = VFa (o_biases o) i)
+           (ModuleModel.run_cfg Rops fixed efix it0 tsfs cfgs evs).
+Proof. exact @fb_routing. Qed.
+Print Assumptions C08_fb_routing.
+
+(* Extended-Lagrangian variables (composition with C17's model of colvar::update_extended_Lagrangian): fed with the
+   pipeline's fb and fb_actual, the atoms receive factor_v * spring force + the bypassing biases' factor_b * F_b
+   and nothing of the ordinary biases, whose sum / factor_v acts on the extended coordinate. *)
+Theorem C08_extended_routing :
+  forall (BS : Type) (c : @config R) (p : @params R) (s : @state R) (bs : list (@ModuleModel.bias R BS)) (i : nat) (stp : Z) (x rnd : R),
+    tsf_error c s (ext_input bs i stp x rnd) = false ->
+    let xe := fst (props_xv Rops c s (ext_input bs i stp x rnd)) in
+    let s' := ExtLagModel.step Rops c p s (ext_input bs i stp x rnd) in
+    s_f s' = IZR (c_tsf c) * (- f_spring c p xe x) + VFa bs i /\
+    s_fr s' = VFn bs i / IZR (c_tsf c).
+Proof. exact @extended_routing. Qed.
+Print Assumptions C08_extended_routing.
+
+(* Superposition on an extended-Lagrangian variable holds relative to the bias-free spring force (same extended
+   state and position): bypassing biases add up on the atoms, ordinary biases add up on the extended coordinate.
+   (Absolute superposition F(A+B) = F(A) + F(B) is false there: the spring force is in every run; and over a
+   history the extended coordinate itself couples the biases - that part is C17's dynamics.) *)
+Theorem C08_extended_superposition :
+  forall (BS : Type) (c : @config R) (p : @params R) (s : @state R) (bs : list (@ModuleModel.bias R BS)) (m : list bool)
+         (i : nat) (stp : Z) (x rnd : R),
+    length m = length bs ->
+    tsf_error c s (ext_input bs i stp x rnd) = false ->
+    tsf_error c s (ext_input (select m bs) i stp x rnd) = false ->
+    tsf_error c s (ext_input (select (map negb m) bs) i stp x rnd) = false ->
+    tsf_error c s (@ext_input BS [] i stp x rnd) = false ->
+    let F := fun l : list (@ModuleModel.bias R BS) => s_f (ExtLagModel.step Rops c p s (ext_input l i stp x rnd)) in
+    let G := fun l : list (@ModuleModel.bias R BS) => s_fr (ExtLagModel.step Rops c p s (ext_input l i stp x rnd)) in
+    F bs - F [] = (F (select m bs) - F []) + (F (select (map negb m) bs) - F []) /\
+    G bs = G (select m bs) + G (select (map negb m) bs).
+Proof. exact @extended_superposition. Qed.
+Print Assumptions C08_extended_superposition.
